@@ -119,6 +119,12 @@ func opsWorker(name string, res *core.Result, r *core.RNG, tier, out string) err
 			s.finish(&items)
 		}
 	}
+	if name == "hostile" && core.Shard == 1 {
+		// conflicting authorizations while the device's datagrams are in flight (a crash here kills this worker)
+		if err := schedBanInFlight(res, r.Fork()); err != nil {
+			return err
+		}
+	}
 	for i := 0; i < n; i++ {
 		http := name == "equip" || name == "register" || (name == "hostile" && r.Chance(50))
 		s, err := opsHistory(res, r.Fork(), p, http, nops)
